@@ -5,8 +5,9 @@
    formatters).  What is modelled is what text must CARRY: a record is its value
    (the RDATA octets it encodes to under the origin) plus the relativity of the names in
    it; producing text under (origin, relativize) yields a spelling of the same value whose
-   names are relative or absolute; parsing under (origin, relativize) yields a record of
-   the same value with the relativity the configuration dictates.  Nothing else may
+   names are relative or absolute; parsing under (origin, relativize, relativize_to) yields
+   a record of the same value with the relativity the configuration dictates (relative names
+   are completed with origin, the result is relativized to relativize_to, default origin).  Nothing else may
    change, for any style of the lossless set, and the RFC 3597 generic form carries the
    value with absolute names.  Trace_RdataText holds the implementation to this. *)
 EXTENDS RdTextUniverse
@@ -14,32 +15,28 @@ EXTENDS RdTextUniverse
 CONSTANT Values           \* model checking only: the octet strings a record may hold
 VARIABLES have,           \* a record is in hand
           val,            \* its value: RDATA octets under the origin
-          rel,            \* names under the origin are held relative
+          rel,            \* the record's base (RdTextUniverse): "abs", or the origin its names are held relative to
           via,            \* "wire" / "text": how the record was accepted
           lenient,        \* accepted from wire, but has no master-file form (RdTextUniverse!Lenient)
-          obs             \* the last derived record: [wire, rel]
+          obs             \* the last derived record: [wire, rel] (rel = its base)
 rvars == <<have, val, rel, via, lenient, obs>>
 
-NoObs == [wire |-> <<-1>>, rel |-> FALSE]
-RInit == have = FALSE /\ val = <<-1>> /\ rel = FALSE /\ via = "none" /\ lenient = FALSE /\ obs = NoObs
+NoObs == [wire |-> <<-1>>, rel |-> "abs"]
+RInit == have = FALSE /\ val = <<-1>> /\ rel = "abs" /\ via = "none" /\ lenient = FALSE /\ obs = NoObs
 
-\* relativity of the names in a text produced under (ot, rt) from a record held with relativity r
-TextRel(oc, r) == IF oc.ot = "none" THEN r ELSE oc.rt
-\* relativity of the record parsed from such a text under (op, rp)
-ParseRel(oc, trel) == IF oc.op = "org" THEN oc.rp ELSE trel
-OutRel(oc, r) == ParseRel(oc, TextRel(oc, r))
-
-AcceptWire(w, oin, len) == /\ ~have /\ have' = TRUE /\ val' = w /\ rel' = (oin = "org") /\ via' = "wire"
+\* the relativity calculus (TextBase, ParseBase, OutBase, GenBase, Applicable) is RdTextUniverse's
+AcceptWire(w, oin, len) == /\ ~have /\ have' = TRUE /\ val' = w /\ rel' = (IF oin = "org" THEN "org" ELSE "abs") /\ via' = "wire"
                            /\ lenient' = len /\ obs' = NoObs
-AcceptText(w, trel) == /\ ~have /\ have' = TRUE /\ val' = w /\ rel' = trel /\ via' = "text"
+AcceptText(w, trel) == /\ ~have /\ have' = TRUE /\ val' = w /\ rel' = (IF trel THEN "org" ELSE "abs") /\ via' = "text"
                        /\ lenient' = FALSE /\ obs' = NoObs
 \* to_text under oc / style, then from_text under oc: same value, relativity by the calculus
 RoundTrip(oc, st) == /\ have /\ oc \in OrgConfigs /\ st \in {s.id : s \in Styles}
-                     /\ obs' = [wire |-> val, rel |-> OutRel(oc, rel)]
+                     /\ Applicable(oc, rel)
+                     /\ obs' = [wire |-> val, rel |-> OutBase(oc, rel)]
                      /\ UNCHANGED <<have, val, rel, via, lenient>>
 \* to_generic().to_text(), then from_text of the record's own type under gc
 Generic(gc) == /\ have /\ gc \in GenConfigs
-               /\ obs' = [wire |-> val, rel |-> (gc.op = "org" /\ gc.rp)]
+               /\ obs' = [wire |-> val, rel |-> GenBase(gc)]
                /\ UNCHANGED <<have, val, rel, via, lenient>>
 RNext == \/ \E w \in Values, oin \in {"none", "org"}, b \in BOOLEAN : AcceptWire(w, oin, b)
          \/ \E w \in Values, b \in BOOLEAN : AcceptText(w, b)
@@ -50,9 +47,14 @@ RSpec == RInit /\ [][RNext]_rvars
 \* ---- properties of the model
 Lossless == obs # NoObs => obs.wire = val
 \* a record that came out of a round trip is a fixed point of the same configuration
-Idempotent == \A oc \in OrgConfigs, r \in BOOLEAN : OutRel(oc, OutRel(oc, r)) = OutRel(oc, r)
+Idempotent == \A oc \in OrgConfigs, r \in Bases :
+                 (Applicable(oc, r) /\ Applicable(oc, OutBase(oc, r))) => OutBase(oc, OutBase(oc, r)) = OutBase(oc, r)
 \* without an origin on either side nothing changes; with relativize on both sides names end up relative
-PlainKeeps == \A oc \in OrgConfigs, r \in BOOLEAN : (oc.ot = "none" /\ oc.op = "none") => OutRel(oc, r) = r
+PlainKeeps == \A oc \in OrgConfigs, r \in Bases : (oc.ot = "none" /\ oc.op = "none") => OutBase(oc, r) = r
+\* relativize_to decides the base of a relativizing parse, and is irrelevant without relativize
+RelToDecides == \A oc \in OrgConfigs, r \in Bases :
+                   (Applicable(oc, r) /\ oc.op # "none") =>
+                      OutBase(oc, r) = (IF ~oc.rp THEN "abs" ELSE IF oc.relto # "none" THEN oc.relto ELSE oc.op)
 ConfigsDistinct == \A a, b \in OrgConfigs : a.id = b.id => a = b
 Immutable == [][have => (val' = val /\ rel' = rel /\ via' = via)]_rvars
 =============================================================================
